@@ -55,6 +55,7 @@ dvars == <<d, raw, pc, j, p>>
 (*          blocks : sequence of Block (content of a link file; <<>> otherwise)]            *)
 (* Block = [merge : BOOLEAN (Path=./tgt), tgt, title ("" = no Name=), num (0 = no Numb=),   *)
 (*          x : BOOLEAN (Type=X), host ("" = this server)]                                  *)
+(* (a second Type=X block for an already hidden entry is harmless since fix 1fe5e21)        *)
 (* fault: vanish1 = deleted after enumeration, before the first inspection; vanish2 =       *)
 (* deleted after the multiplexer's stat, before a handler opens it; estat = stat fails      *)
 (* with EACCES; eopen = open fails with EACCES.                                             *)
@@ -169,7 +170,7 @@ MergeOne(dd, dict, E, b) ==
        ELSE [i \in DOMAIN E |->
                IF E[i].fs /\ E[i].sel = sel
                THEN [E[i] EXCEPT !.title = IF b.title = "" THEN @ ELSE b.title,
-                                 !.num = b.num]           \* num of a LinkEntry is 0, never None: always copied
+                                 !.num = IF b.num = 0 THEN @ ELSE b.num]   \* only fields the block sets (fix 7c19da0)
                ELSE E[i]]
 RECURSIVE MergeFold(_, _, _, _)
 MergeFold(dd, dict, E, bs) ==
